@@ -6,5 +6,5 @@ PROPS=${PROPS:-$(echo "$D" | grep -o "C[0-9][0-9]" | tail -1)}
 git -C $W checkout -q -- . ; git -C $W clean -fdq; git -C $W checkout -q --detach $(git -C /repo rev-parse HEAD)
 cp /verif/known_findings.txt /tmp/ev-mut/ 2>/dev/null
 git -C $W apply "$D/patch.diff" || { echo "UNDECIDED patch does not apply"; exit 2; }
-for P in $PROPS; do /verif/bin/frpsa check -prop $P -repo $W -verif /tmp/ev-mut 2>&1 | grep -E "^(VIOLATED|UNDECIDED)" | cut -c1-200; done
+for P in $PROPS; do ${BIN:-/verif/bin/frpsa} check -prop $P -repo $W -verif /tmp/ev-mut 2>&1 | grep -E "^(VIOLATED|UNDECIDED)" | cut -c1-200; done
 git -C $W checkout -q -- . ; git -C $W clean -fdq
